@@ -32,6 +32,9 @@ func (e *Exec) call(fr *Frame, st *BState, x *ssa.Call) SV {
 		if c.Method.FullName() == nodeRunMethod {
 			return e.streamRun(fr, st, x)
 		}
+		if c.Method.FullName() == "(error).Error" {
+			return &Scalar{T: errMsg(e.val(fr, c.Value).(*IfaceV)), Ty: x.Type()}
+		}
 		return havoc("invoke " + c.Method.FullName())
 	}
 	var args []SV
@@ -252,13 +255,38 @@ func init() {
 		}
 	}
 	for _, n := range []string{"strconv.ParseInt", "strconv.ParseFloat", "time.Parse", "time.Now", "log.Printf",
-		"fmt.Sprint", "fmt.Sprintf", "(time.Time).Format", "(time.Duration).String", "time.ParseDuration"} {
+		"fmt.Sprint", "(time.Time).Format", "(time.Duration).String", "time.ParseDuration"} {
 		pure(n)
 	}
+	// error-message model: fmt.Errorf returns a fresh non-nil error whose message is sprintf(format, args) and
+	// contains the message of every error argument (%w / %v / %s); fmt.Sprintf is the same sprintf.
 	externs["fmt.Errorf"] = func(e *Exec, st *BState, x *ssa.Call, args []SV) SV {
 		r := e.freshSV(x.Type(), "errorf", st.reach, false).(*IfaceV)
 		e.assume(not(eq(r.Tag, intLit(0))))
+		msg, errArgs := e.sprintfTerm(e.curFrame, st, x, args)
+		if msg != nil {
+			e.assume(implies(st.reach, eq(errMsg(r), msg)))
+		}
+		for _, ea := range errArgs {
+			e.assume(implies(and(st.reach, not(eq(ea.Tag, intLit(0)))), app(SBool, "str.contains", errMsg(r), errMsg(ea))))
+		}
 		return r
+	}
+	externs["fmt.Sprintf"] = func(e *Exec, st *BState, x *ssa.Call, args []SV) SV {
+		msg, _ := e.sprintfTerm(e.curFrame, st, x, args)
+		if msg == nil {
+			return e.freshSV(x.Type(), "sprintf", st.reach, false)
+		}
+		return &Scalar{T: msg, Ty: x.Type()}
+	}
+	externs["strings.Contains"] = func(e *Exec, st *BState, x *ssa.Call, args []SV) SV {
+		return &Scalar{T: app(SBool, "str.contains", scal(args[0]), scal(args[1])), Ty: x.Type()}
+	}
+	externs["strings.HasPrefix"] = func(e *Exec, st *BState, x *ssa.Call, args []SV) SV {
+		return &Scalar{T: app(SBool, "str.prefixof", scal(args[1]), scal(args[0])), Ty: x.Type()}
+	}
+	externs["strings.HasSuffix"] = func(e *Exec, st *BState, x *ssa.Call, args []SV) SV {
+		return &Scalar{T: app(SBool, "str.suffixof", scal(args[1]), scal(args[0])), Ty: x.Type()}
 	}
 	externs["github.com/segmentio/fasthash/fnv1a.AddUint64"] = func(e *Exec, st *BState, x *ssa.Call, args []SV) SV {
 		return &Scalar{T: ufun("ext.fnv1a.AddUint64", []string{SInt, SInt}, SInt, scal(args[0]), scal(args[1])), Ty: x.Type()}
@@ -327,3 +355,96 @@ func init() {
 }
 
 var _ = fmt.Sprintf
+
+func errMsg(v *IfaceV) *Term {
+	return ufun("ghost.errmsg", []string{SInt, SInt}, SStr, v.Tag, v.Ref)
+}
+
+// varargSources finds, for a call f(fixed..., a...) whose variadic slice was built in place, the SSA values stored
+// into the backing array (in index order).
+func varargSources(x *ssa.Call) []ssa.Value {
+	if len(x.Call.Args) == 0 {
+		return nil
+	}
+	sl, ok := x.Call.Args[len(x.Call.Args)-1].(*ssa.Slice)
+	if !ok {
+		return nil
+	}
+	al, ok := sl.X.(*ssa.Alloc)
+	if !ok {
+		return nil
+	}
+	at, ok := al.Type().(*types.Pointer).Elem().Underlying().(*types.Array)
+	if !ok {
+		return nil
+	}
+	out := make([]ssa.Value, at.Len())
+	for _, ref := range *al.Referrers() {
+		ia, ok := ref.(*ssa.IndexAddr)
+		if !ok {
+			continue
+		}
+		k, ok := ia.Index.(*ssa.Const)
+		if !ok {
+			return nil
+		}
+		for _, r2 := range *ia.Referrers() {
+			if stv, ok := r2.(*ssa.Store); ok && stv.Addr == ia {
+				out[k.Int64()] = stv.Val
+			}
+		}
+	}
+	for _, v := range out {
+		if v == nil {
+			return nil
+		}
+	}
+	return out
+}
+
+// sprintfTerm builds sprintf(format, args...) as an uninterpreted function of the format and the argument contents
+// (boxed scalars by content, other values by interface identity); it also returns the error-typed arguments.
+func (e *Exec) sprintfTerm(fr *Frame, st *BState, x *ssa.Call, args []SV) (*Term, []*IfaceV) {
+	srcs := varargSources(x)
+	if srcs == nil && len(x.Call.Args) > 1 {
+		if c, ok := x.Call.Args[len(x.Call.Args)-1].(*ssa.Const); !ok || c.Value != nil {
+			return nil, nil
+		}
+	}
+	ts := []*Term{scal(args[0])}
+	sorts := []string{SStr}
+	var errs []*IfaceV
+	for _, src := range srcs {
+		switch v := src.(type) {
+		case *ssa.MakeInterface:
+			payload := e.val(fr, v.X)
+			var ls []*Term
+			if p, ok := payload.(*PtrV); ok && p.Addr == nil {
+				ls = []*Term{e.fresh("sprintf.arg", SInt)}
+			} else {
+				leaves(payload, &ls)
+			}
+			for _, l := range ls {
+				ts = append(ts, l)
+				sorts = append(sorts, l.Sort)
+			}
+		default:
+			iv, ok := e.val(fr, src).(*IfaceV)
+			if !ok {
+				return nil, nil
+			}
+			ts = append(ts, iv.Tag, iv.Ref)
+			sorts = append(sorts, SInt, SInt)
+			if types.Identical(src.Type(), types.Universe.Lookup("error").Type()) {
+				errs = append(errs, iv)
+			} else if ci, ok := src.(*ssa.ChangeInterface); ok && types.Identical(ci.X.Type(), types.Universe.Lookup("error").Type()) {
+				errs = append(errs, iv)
+			}
+		}
+	}
+	name := "ext.sprintf"
+	for _, s := range sorts[1:] {
+		name += "." + sanitize(s)
+	}
+	return ufun(name, sorts, SStr, ts...), errs
+}
